@@ -72,7 +72,7 @@ var blockedStates = map[string]bool{
 
 // stallKey returns a canonical description of the olareg goroutines if every one of them is blocked on a
 // synchronisation primitive, "" otherwise.
-func stallKey(gs []Goroutine) string {
+func stallKey(gs []Goroutine, extra ...string) string {
 	var ks []string
 	n := 0
 	for _, g := range gs {
@@ -80,7 +80,7 @@ func stallKey(gs []Goroutine) string {
 			continue
 		}
 		n++
-		if !blockedStates[g.State] {
+		if !blockedStates[g.State] && !hasState(extra, g.State) {
 			return ""
 		}
 		ks = append(ks, g.ID+"|"+g.State+"|"+g.Stack)
@@ -92,17 +92,26 @@ func stallKey(gs []Goroutine) string {
 	return strings.Join(ks, "\n--\n")
 }
 
+func hasState(l []string, s string) bool {
+	for _, x := range l {
+		if x == s {
+			return true
+		}
+	}
+	return false
+}
+
 // StableStall decides "nothing inside olareg can make progress": three goroutine dumps, gap apart, in which every
 // goroutine with an olareg frame is blocked on a sync primitive or channel with an identical stack, none is
 // running, runnable, sleeping or in a syscall.  Returns the description of the blocked goroutines, or "".
-func StableStall(gap time.Duration) string {
-	k1 := stallKey(Dump())
+func StableStall(gap time.Duration, extra ...string) string {
+	k1 := stallKey(Dump(), extra...)
 	if k1 == "" {
 		return ""
 	}
 	for i := 0; i < 2; i++ {
 		time.Sleep(gap)
-		if stallKey(Dump()) != k1 {
+		if stallKey(Dump(), extra...) != k1 {
 			return ""
 		}
 	}
@@ -120,7 +129,9 @@ type WatchResult struct {
 // Watch runs fn in its own goroutine.  If fn is still outstanding after grace, the stable-stall criterion is
 // evaluated every few seconds until fn returns, a stall is exhibited, or limit has passed (then neither Done nor
 // Stalled is set: inconclusive).  A stalled fn is abandoned (its goroutine leaks until the process ends).
-func Watch(fn func(), grace, limit time.Duration) WatchResult {
+// extra names further goroutine states that count as blocked for this call: "IO wait" is sound only where every peer
+// of every connection is the calling trial itself and it sends nothing more.
+func Watch(fn func(), grace, limit time.Duration, extra ...string) WatchResult {
 	done := make(chan struct{})
 	go func() {
 		defer close(done)
@@ -133,14 +144,14 @@ func Watch(fn func(), grace, limit time.Duration) WatchResult {
 	case <-time.After(grace):
 	}
 	for time.Since(t0) < limit {
-		if d := StableStall(time.Second); d != "" {
+		if d := StableStall(time.Second, extra...); d != "" {
 			// confirm once more after a pause: a timer that fires late could still change the picture
 			select {
 			case <-done:
 				return WatchResult{Done: true, Waited: time.Since(t0)}
 			case <-time.After(2 * time.Second):
 			}
-			if d2 := StableStall(500 * time.Millisecond); d2 == d {
+			if d2 := StableStall(500*time.Millisecond, extra...); d2 == d {
 				return WatchResult{Stalled: true, Desc: d, Waited: time.Since(t0)}
 			}
 		}
